@@ -308,12 +308,22 @@ fn c09_arc4_prga_step() {
     std::mem::forget(p);
 }
 
+// KSA: `Arc4Cipher::new` vs the RC4 key schedule.  A fully symbolic key byte makes all 256 swaps
+// symbolic-index array updates on both sides (measured: key length 1 and 2 each time out at 3000 s in
+// symex), so the key schedule is checked on keys that are concrete except for ONE symbolic bit
+// position/value pair per harness: still a solver query (2 keys per harness are covered at once), but
+// honest about its reach: this is close to a known-answer test of the KSA against the reference
+// model, not a for-all claim over keys.
 macro_rules! arc4_ksa {
-    ($name:ident, $klen:expr) => {
+    ($name:ident, $key:expr, $pos:expr) => {
         #[kani::proof]
         #[kani::unwind(258)]
         fn $name() {
-            let kb: [u8; $klen] = kani::any();
+            let mut kb = $key;
+            let flip: bool = kani::any();
+            if flip {
+                kb[$pos] ^= 0x80;
+            }
             let c = Arc4Cipher::new(&kb).unwrap();
             let r = SpecRc4::new(&kb);
             let (s, i, j) = ax::parts(&c);
@@ -321,15 +331,19 @@ macro_rules! arc4_ksa {
             let t: usize = kani::any();
             kani::assume(t < 256);
             assert!(s[t] == r.s[t], "KSA permutation differs from RC4");
+            kani::cover!(flip, "flipped key");
         }
     };
 }
-// @family prop=C09 tier=thorough timeout=3000 mem=24 role=arc4-ksa
-// @bounds key of the fixed length in the name, every key byte symbolic; full 256-entry permutation compared
+// @family prop=C09 tier=quick timeout=900 role=arc4-ksa-near-concrete
+// @bounds keys of 1, 3, 5 and 16 bytes, concrete except for one symbolic bit (2 keys per harness); full 256-entry permutation compared (symbolic index)
 // @encodes cascette_crypto::arc4::Arc4Cipher::new
-// @catches KSA key index (i % len), swap order, j update
-arc4_ksa!(c09_arc4_ksa_keylen_1, 1);
-arc4_ksa!(c09_arc4_ksa_keylen_2, 2);
+// @assumes reference RC4 key schedule in refmodels.rs; fully symbolic key bytes do not finish (3000 s), so this is a near-concrete regression of the KSA, not a for-all claim
+// @catches KSA key index (i % len), swap order, j update, initial permutation
+arc4_ksa!(c09_arc4_ksa_key1, [0x4Bu8], 0);
+arc4_ksa!(c09_arc4_ksa_key3, *b"Key", 1);
+arc4_ksa!(c09_arc4_ksa_key5, *b"Wiki\x00", 4);
+arc4_ksa!(c09_arc4_ksa_key16, [0x01u8, 0x23, 0x45, 0x67, 0x89, 0xAB, 0xCD, 0xEF, 0xFE, 0xDC, 0xBA, 0x98, 0x76, 0x54, 0x32, 0x10], 15);
 // @end
 
 // @harness prop=C09 tier=quick timeout=600 role=arc4-key-length-check
